@@ -1,0 +1,37 @@
+//go:build verif
+
+package nfsv4
+
+import (
+	"sort"
+
+	"github.com/buildbarn/bb-remote-execution/pkg/filesystem/virtual"
+	"github.com/buildbarn/go-xdr/pkg/protocols/nfsv4"
+)
+
+// VerifLocksDump is a read-only verification hook: it returns copies of
+// the byte-range lock entries of the opened file in list order, and
+// whether the linked list is intact.
+func (of *OpenedFile) VerifLocksDump() ([]virtual.ByteRangeLock[*nfsv4.LockOwner4], bool) {
+	of.locksLock.RLock()
+	defer of.locksLock.RUnlock()
+	return of.locks.VerifLocksDump()
+}
+
+// VerifLocksOpened is a read-only verification hook: it returns the
+// handles of all files that are currently tracked by the pool (sorted),
+// with their use counts and OpenedFile objects.
+func (ofp *OpenedFilesPool) VerifLocksOpened() (handles []string, useCounts []int, files []*OpenedFile) {
+	ofp.lock.RLock()
+	defer ofp.lock.RUnlock()
+	for h := range ofp.filesByHandle {
+		handles = append(handles, h)
+	}
+	sort.Strings(handles)
+	for _, h := range handles {
+		of := ofp.filesByHandle[h]
+		useCounts = append(useCounts, int(of.useCount))
+		files = append(files, of)
+	}
+	return
+}
